@@ -80,6 +80,19 @@ ListBucketsB(c, p, max, w) ==
     /\ Log("ListBucketsB", [c |-> c, prefix |-> p, max |-> max, w |-> w],
            OK([names |-> SetToSeq(Visible(c) \cap Matches(p)), paging |-> "partition"]))
 
+\* One page requested with an ARBITRARY continuation token: the name of a bucket that
+\* exists, of one that does not exist (any more), or a string between two names.  The
+\* page holds the first max visible buckets strictly after the token in name order.
+Ord(b) == CASE b = "xa1" -> 2 [] b = "xb2" -> 4 [] b = "y3" -> 6
+Tokens == {"xa", "xa1", "xb2", "xb5", "y3"}
+TokOrd(t) == CASE t = "xa" -> 1 [] t = "xa1" -> 2 [] t = "xb2" -> 4 [] t = "xb5" -> 5 [] t = "y3" -> 6
+PageOf(S, max) == LET s == SortSeq(SetToSeq(S), LAMBDA a, b : Ord(a) < Ord(b)) IN
+                  SubSeq(s, 1, IF Len(s) < max THEN Len(s) ELSE max)
+ListBucketsFrom(c, t, max) ==
+    /\ UNCHANGED state
+    /\ Log("ListBucketsFrom", [c |-> c, tok |-> t, max |-> max],
+           OK([names |-> PageOf({b \in Visible(c) : Ord(b) > TokOrd(t)}, max)]))
+
 (******************************* settings **********************************)
 PutSetting(c, b, s, d) ==
     LET a == [c |-> c, b |-> b, s |-> s, doc |-> d] IN
@@ -143,6 +156,7 @@ Op ==
     \* (more weight on listings that need more than one page)
     \/ \E c \in Callers, f \in ListForms, w \in 1 .. 2 * Weight :
           (w = 1 \/ Cardinality(Visible(c) \cap Matches(f[1])) > f[2]) /\ ListBucketsB(c, f[1], f[2], w)
+    \/ \E c \in Callers, t \in Tokens, m \in PageSizes : Visible(c) # {} /\ ListBucketsFrom(c, t, m)
     \/ \E c \in Callers, b \in Buckets, s \in UseSettings : \E d \in Docs(s) : Exists(b) /\ MayAct(c, b) /\ PutSetting(c, b, s, d)
     \* (reading a setting that was written is given more weight than reading a default)
     \/ \E c \in Callers, b \in Buckets, s \in UseSettings, w \in 1 .. Weight :
@@ -209,4 +223,8 @@ DeleteBucketOnlyEmpty ==
 ListBucketsOwned ==
     [][(Stepped /\ Step.op = "ListBucketsB") =>
           ToSet(Step.r.names) = {b \in Matches(Step.a.prefix) : Exists(b) /\ (Step.a.c = Admin \/ bkts[b].owner = Step.a.c)}]_vars
+    /\ [][(Stepped /\ Step.op = "ListBucketsFrom") =>
+          /\ ToSet(Step.r.names) \subseteq {b \in Buckets : Exists(b) /\ (Step.a.c = Admin \/ bkts[b].owner = Step.a.c)}
+          /\ Len(Step.r.names) <= Step.a.max
+          /\ \A i \in DOMAIN Step.r.names : Ord(Step.r.names[i]) > TokOrd(Step.a.tok)]_vars
 =============================================================================
